@@ -13,6 +13,8 @@
             optional of an optional, every field list homogeneous;
       C05 — if the generator supplied the tree the text was rendered from: accepted with exactly that tree,
             documentation = the comment block above each member, description verbatim, sub-lists consistent.
+            Every layout of the generator is inside the grammar — also line breaks and comments between an error's
+            name and its parameter list and members that share a line: a rejection is a disagreement.
 -/
 import Varlink.Idl.Parser
 import Varlink.Idl.Printer
@@ -167,9 +169,12 @@ def c05Failure (text : Bytes) (exp : Idl) (tags : List String) (o : Obs) : Optio
         else if !sub then some "sublists-inconsistent-with-members"
         else none
   | _ =>
+    -- every layout the generator produces is inside the grammar and must be accepted; the reason names the layout
+    -- class around an error's name if there is one (the two classes idl.go rejected up to /repo a1069ea)
     if tags.any (fun t => t == "g6=nl" || t == "g6=cr" || t == "g6=comment") then
       some "rejected-layout-error-type-on-next-line"
     else if tags.contains "g3err=inline" then some "rejected-layout-member-after-typeless-error-on-same-line"
+    else if tags.any (fun t => t.startsWith "errend=") then some "rejected-layout-typeless-error-at-end-of-text"
     else some "rejected-grammar-conformant-description"
 
 def sizeBucket (n : Nat) : String :=
